@@ -1,5 +1,7 @@
 import Flowjaxv.Proofs.Docs
 import Flowjaxv.Proofs.Rqs
+import Flowjaxv.Proofs.Planar
+import Flowjaxv.Proofs.Triangular
 /-!
 # C07 — elementary bijections compute their documented functions
 
@@ -126,5 +128,82 @@ theorem permute_instance :
       PermModel.inv [2, 0, 3, 1] (PermModel.fwd [2, 0, 3, 1] [10, 20, 30, (40 : ℝ)]) = [10, 20, 30, 40] := by
   have hp : List.Perm [2, 0, 3, 1] (List.range ([2, 0, 3, 1] : List Nat).length) := by decide
   exact ⟨(PermModel.valid_iff _).mpr hp, PermModel.inv_fwd _ hp _ rfl⟩
+
+
+/-! ### Planar and TriangularAffine -/
+
+/-- **Planar** computes the documented `y = x + û·act(wᵀx + b)`: the methods GENERATED from
+`_UnconditionalPlanar` (`Gen/Planar.lean`), on a vector `x ∈ ℝⁿ` given by its coordinates, for `act = tanh` … -/
+theorem planar_doc {n : ℕ} (p : UnconditionalPlanar ℝ) (hw : p.weight.length = n) (hu : p._act_scale.length = n)
+    (hne : Jnp.dot p.weight p.weight ≠ 0) (x : Fin n → ℝ) :
+    p.transform_tanh (List.ofFn x) = List.ofFn (fun i =>
+      x i + VecLd.toVec n p.get_act_scale i * Real.tanh (VecLd.toVec n p.weight ⬝ᵥ x + p.bias)) :=
+  PlanarPf.transform_tanh_ofFn (PlanarPf.vec ⟨hw, hu, hne⟩).1 (PlanarPf.vec ⟨hw, hu, hne⟩).2 x
+
+/-- … and for `act = leaky_relu(·, negative_slope)`: `z ↦ s·z` for `z < 0`, `z ↦ z` otherwise. -/
+theorem planar_lrelu_doc {n : ℕ} (p : UnconditionalPlanar ℝ) (hw : p.weight.length = n) (hu : p._act_scale.length = n)
+    (hne : Jnp.dot p.weight p.weight ≠ 0) (s : ℝ) (x : Fin n → ℝ) :
+    p.transform_lrelu s (List.ofFn x) = List.ofFn (fun i =>
+      x i + VecLd.toVec n p.get_act_scale i *
+        (if VecLd.toVec n p.weight ⬝ᵥ x + p.bias < 0 then s * (VecLd.toVec n p.weight ⬝ᵥ x + p.bias)
+         else VecLd.toVec n p.weight ⬝ᵥ x + p.bias)) :=
+  PlanarPf.transform_lrelu_ofFn (PlanarPf.vec ⟨hw, hu, hne⟩).1 (PlanarPf.vec ⟨hw, hu, hne⟩).2 s x
+
+/-- `û = get_act_scale()` is the paper's (appendix A.1) `u + (m(wᵀu) − wᵀu)·w/‖w‖²` with
+`m(t) = −1 + log(1 + softplus t)`, coordinate by coordinate. -/
+theorem planar_act_scale_doc {n : ℕ} (p : UnconditionalPlanar ℝ) (hw : p.weight.length = n)
+    (hu : p._act_scale.length = n) (hne : Jnp.dot p.weight p.weight ≠ 0) (i : Fin n) :
+    VecLd.toVec n p.get_act_scale i = VecLd.toVec n p._act_scale i +
+      ((-1 + Real.log (1 + Real.log (1 + Real.exp (VecLd.toVec n p._act_scale ⬝ᵥ VecLd.toVec n p.weight))))
+          - VecLd.toVec n p._act_scale ⬝ᵥ VecLd.toVec n p.weight)
+        * VecLd.toVec n p.weight i / (VecLd.toVec n p.weight ⬝ᵥ VecLd.toVec n p.weight) :=
+  PlanarPf.get_act_scale_doc ⟨hw, hu, hne⟩ i
+
+/-- the analytic inverse of the leaky-relu layer, as documented in the source comment:
+`x = y − û·σ·z` with `z = (wᵀy + b)/(1 + wᵀû·σ)` and `σ` the slope selected by the sign of `wᵀy + b` -/
+theorem planar_inverse_doc {n : ℕ} (p : UnconditionalPlanar ℝ) (hw : p.weight.length = n) (hu : p._act_scale.length = n)
+    (hne : Jnp.dot p.weight p.weight ≠ 0) (s : ℝ) (y : Fin n → ℝ) :
+    p.inverse_lrelu s (List.ofFn y) = List.ofFn (fun i =>
+      y i - (VecLd.toVec n p.get_act_scale i * (if VecLd.toVec n p.weight ⬝ᵥ y + p.bias < 0 then s else 1)) *
+        ((VecLd.toVec n p.weight ⬝ᵥ y + p.bias) /
+          (1 + VecLd.toVec n p.weight ⬝ᵥ (fun j => VecLd.toVec n p.get_act_scale j *
+            (if VecLd.toVec n p.weight ⬝ᵥ y + p.bias < 0 then s else 1))))) := by
+  unfold UnconditionalPlanar.inverse_lrelu
+  rw [PlanarPf.ild_lrelu_ofFn (PlanarPf.vec ⟨hw, hu, hne⟩).1 (PlanarPf.vec ⟨hw, hu, hne⟩).2]
+  rfl
+
+/-- **TriangularAffine** computes `A x + b`: for `triangular` an `n × n` matrix and `loc ∈ ℝⁿ`, in Mathlib's
+matrix–vector product … -/
+theorem triangular_doc {n : ℕ} {t : Tri.TriAffine ℝ} (h : TriPf.TriWF n t) (x : Fin n → ℝ) :
+    t.transform (List.ofFn x) = List.ofFn (Matrix.mulVec (TriPf.toMat n t.triangular) x + VecLd.toVec n t.loc) :=
+  TriPf.transform_ofFn h x
+
+/-- … where, as constructed (`TriangularAffine(loc, arr, lower=…)` with raw diagonal parameters `raw`), `A` is the
+requested triangle: `softplus rawᵢ` on the diagonal, `arr`'s entries strictly inside the triangle chosen by
+`lower`, exactly 0 in the other triangle (C11's `tri_entries`). -/
+theorem triangular_ctor_doc {n : ℕ} (lower : Bool) (raw : List ℝ) (arr : List (List ℝ)) (loc : List ℝ)
+    (hsq : TriPf.Square n arr) (hr : raw.length = n) (hl : loc.length = n) (x : Fin n → ℝ) :
+    (Tri.ofRaw lower raw arr loc).transform (List.ofFn x)
+      = List.ofFn (Matrix.mulVec (Matrix.of fun (i j : Fin n) =>
+          if j = i then Real.log (1 + Real.exp (raw.getD i 0))
+          else if (if lower then j < i else i < j) then TriPf.entry arr i j else 0) x + VecLd.toVec n loc) := by
+  rw [triangular_doc (TriPf.ofRaw_wf lower raw arr loc hsq hr hl)]
+  show List.ofFn (Matrix.mulVec (TriPf.toMat n (Params.triangularOfRaw lower raw arr)) x + VecLd.toVec n loc) = _
+  rw [TriPf.toMat_ofRaw lower raw arr hsq hr]
+  rfl
+
+/-- the inverse is the solution of the triangular system: `A · inverse(y) + loc = y` -/
+theorem triangular_inverse_doc {n : ℕ} {t : Tri.TriAffine ℝ} (h : TriPf.TriWF n t) (y : List ℝ) (hy : y.length = n) :
+    List.zipWith (fun a b => a + b) (Tri.matVec t.triangular (t.inverse y)) t.loc = y :=
+  (TriPf.triangular_lawful (C := Unit) h).right y hy ()
+
+/-- non-vacuity: raw diagonal `(0, 0)` (so the diagonal is `softplus 0 = log 2`), `arr = [[9,9],[1,9]]` with
+`lower = True` (the 9s on and above the diagonal are ignored), `loc = (5, 7)`: `(1, 1) ↦ (log 2 + 5, 1 + log 2 + 7)` -/
+theorem triangular_doc_instance :
+    (Tri.ofRaw true [0, 0] [[9, 9], [1, 9]] [(5 : ℝ), 7]).transform (List.ofFn ![1, 1])
+      = [Real.log 2 + 5, 1 + Real.log 2 + 7] := by
+  simp [Tri.ofRaw, Params.triangularOfRaw, Params.toTriangular, Tri.TriAffine.transform, Tri.matVec,
+    ParamsPf.jdot_eq, ParamsPf.softplusRaw_unwrap, List.ofFn_succ, List.zipIdx]
+  norm_num
 
 end C07
